@@ -1849,4 +1849,49 @@ chk.case('cli-leftover-above-warning-level', line('aboveonly', n_above_only), 'o
                                        '(needs 2)' % n_above_only], True)
 
 shutil.rmtree(SCRATCH, ignore_errors=True)
+# ---- destinations that are symbolic links (oracle only; the file-system model has one directory, no links) ----
+# The backup name is formed next to the DESTINATION NAME: a destination that is a symbolic link to a file in another
+# directory is itself kept under '#name.1#' (the link, still pointing to the old file, which stays untouched), and the
+# new file takes the destination name.  (Seeded change C07m resolved the link: backup and replacement happened in
+# the other directory.)
+import tempfile as _tf, shutil as _sh
+for _k, (_mode, _old, _new) in enumerate([('w', b'old contents\n', b'new contents\n'), ('wb', b'A' * 10, b'B' * 3),
+                                          ('w', b'', b'x\n')]):
+    _root = _tf.mkdtemp(prefix='c07link_')
+    try:
+        _here, _else, _td = (os.path.join(_root, n) for n in ('here', 'elsewhere', 'tmp'))
+        for _d in (_here, _else, _td):
+            os.mkdir(_d)
+        _target = os.path.join(_else, 'real.dat')
+        with open(_target, 'wb') as _f:
+            _f.write(_old)
+        _dest = os.path.join(_here, 'out.dat')
+        os.symlink(_target, _dest)
+        _W = type.__call__(DeferredFileWriter)
+        _W._tmpdir = _td
+        _errs = []
+        try:
+            _h = _W.open(_dest, _mode)
+            _h.write(_new if 'b' in _mode else _new.decode())
+            _h.close()
+            _W.write()
+        except Exception as _e:
+            _errs.append('finalising a symbolic-link destination raised %s: %s' % (type(_e).__name__, str(_e)[:120]))
+        _names_here, _names_else = sorted(os.listdir(_here)), sorted(os.listdir(_else))
+        if not _errs:
+            if open(_target, 'rb').read() != _old or _names_else != ['real.dat']:
+                _errs.append('the file the link pointed to was changed or got company: elsewhere/ holds %r' % (_names_else,))
+            if '#out.dat.1#' not in _names_here:
+                _errs.append('no backup #out.dat.1# next to the destination: here/ holds %r' % (_names_here,))
+            elif open(os.path.join(_here, '#out.dat.1#'), 'rb').read() != _old:
+                _errs.append('the backup next to the destination does not hold the old contents')
+            if not os.path.exists(_dest) or open(_dest, 'rb').read() != _new:
+                _errs.append('the destination name does not hold what was written for it')
+        chk.count('symlink_destination_cases')
+        chk.case('symlink-dest-%d' % _k, 'symlinked destination, mode %s, old %d bytes, new %d bytes' % (_mode, len(_old), len(_new)),
+                 'here=%r elsewhere=%r' % (_names_here, _names_else), None, _errs, True)
+    finally:
+        _sh.rmtree(_root, ignore_errors=True)
+
+
 chk.finish()
